@@ -431,3 +431,488 @@ pub fn c08_iter(inp: &PV) -> PV {
     }
     PV::List(out)
 }
+
+// ------------------------------------------------------------------ C16 (evaluation)
+pub type SV = SemifiniteFunction<K, V>;
+pub type ICV = IndexedCoproduct<K, SemifiniteFunction<K, V>>;
+/// test signature: kind id -> (sources, targets)
+pub fn sig_arity(kind: u64) -> (usize, usize) {
+    match kind {
+        0 => (2, 1), // add
+        1 => (2, 1), // sub (order-sensitive)
+        2 => (2, 1), // and
+        3 => (2, 1), // xor
+        4 => (1, 1), // neg
+        5 => (1, 2), // copy
+        6 => (0, 1), // const 5
+        7 => (1, 0), // discard
+        8 => (2, 1), // mul
+        9 => (0, 2),  // two constants
+        10 => (2, 0), // discard two
+        _ => panic!("ENGINE-ERROR: unknown operation kind {}", kind),
+    }
+}
+/// interpretation of one operation on value terms (constant-folds at the native backend)
+pub fn sig_apply(kind: u64, xs: &[T]) -> Vec<T> {
+    let vw = crate::explore::vw();
+    match kind {
+        0 => vec![tm::add(xs[0], xs[1])],
+        1 => vec![tm::sub(xs[0], xs[1])],
+        2 => vec![tm::band(xs[0], xs[1])],
+        3 => vec![tm::bxor(xs[0], xs[1])],
+        4 => vec![tm::sub(tm::c(0, vw), xs[0])],
+        5 => vec![xs[0], xs[0]],
+        6 => vec![tm::c(5, vw)],
+        7 => vec![],
+        8 => vec![tm::mul(xs[0], xs[1])],
+        9 => vec![tm::c(3, vw), tm::c(9, vw)],
+        10 => vec![],
+        _ => panic!("ENGINE-ERROR: unknown operation kind {}", kind),
+    }
+}
+thread_local! {
+    pub static APPLY_LOG: std::cell::RefCell<Vec<u64>> = std::cell::RefCell::new(vec![]);
+}
+/// the user-supplied interpreter handed to `eval`
+pub fn sig_interpreter(labels: SL, inputs: ICV) -> ICV {
+    let labs: Vec<u64> = K::rd_ls(&labels.0).iter().map(|t| K::conc_l(&K::mk_l(*t))).collect();
+    let sizes: Vec<usize> = K::rd_ix(&inputs.sources.table).iter().map(|t| K::usize_of(&K::mk_i(*t))).collect();
+    let vals = K::rd_vs(&inputs.values.0);
+    assert_eq!(labs.len(), sizes.len(), "interpreter: one input list per operation label");
+    let mut p = 0;
+    let mut out_sizes = vec![];
+    let mut out_vals = vec![];
+    for (k, sz) in labs.iter().zip(sizes.iter()) {
+        let (a, b) = sig_arity(*k);
+        assert_eq!(a, *sz, "interpreter: operation {} applied to {} inputs", k, sz);
+        let ys = sig_apply(*k, &vals[p..p + sz]);
+        assert_eq!(ys.len(), b);
+        p += sz;
+        out_sizes.push(tm::c(b as u64, crate::explore::iw()));
+        out_vals.extend(ys);
+        APPLY_LOG.with(|l| l.borrow_mut().push(*k));
+    }
+    IndexedCoproduct::from_semifinite(SemifiniteFunction(K::mk_ix(&out_sizes).into()), SemifiniteFunction(K::mk_vs(&out_vals))).expect("interpreter output")
+}
+pub fn c16_eval(inp: &PV) -> PV {
+    let f = oh(inp.at(0).oh());
+    let s = K::mk_vs(&inp.at(1).ts());
+    APPLY_LOG.with(|l| l.borrow_mut().clear());
+    let r = open_hypergraphs::strict::eval::eval::<K, L, L, V>(&f, s, sig_interpreter);
+    let log: Vec<u64> = APPLY_LOG.with(|l| l.borrow().clone());
+    let iw = crate::explore::iw();
+    PV::List(vec![
+        match r {
+            None => PV::None,
+            Some(v) => PV::Some(Box::new(PV::of_ts(&K::rd_vs(&v)))),
+        },
+        PV::List(log.iter().map(|k| PV::T(tm::c(*k, iw))).collect()),
+    ])
+}
+
+// ------------------------------------------------------------------ C18 (hypergraph morphisms)
+pub fn c18_arrow(inp: &PV) -> PV {
+    let (g, h) = (hg(inp.at(0).h()), hg(inp.at(1).h()));
+    let (w, x) = (ff_raw(inp.at(2).ff()), ff_raw(inp.at(3).ff()));
+    use open_hypergraphs::strict::hypergraph::arrow::{HypergraphArrow, InvalidHypergraphArrow::*};
+    match HypergraphArrow::new(g, h, w, x) {
+        Err(e) => PV::Tag(
+            match e {
+                TypeMismatchW => "TypeMismatchW",
+                TypeMismatchX => "TypeMismatchX",
+                NotNaturalW => "NotNaturalW",
+                NotNaturalX => "NotNaturalX",
+                NotNaturalS => "NotNaturalS",
+                NotNaturalT => "NotNaturalT",
+            }
+            .into(),
+            vec![],
+        ),
+        Ok(a) => {
+            let again = a.clone().validate().is_ok();
+            PV::Tag("Ok".into(), vec![pv_bool(a.is_monomorphism()), pv_bool(a.is_convex_subgraph()), pv_bool(again)])
+        }
+    }
+}
+
+// ------------------------------------------------------------------ C12 (functors)
+use open_hypergraphs::strict::functor::identity::Identity as StrictIdentity;
+use open_hypergraphs::strict::functor::{define_map_arrow, Functor};
+
+pub fn mk_icl(sizes: &[usize], vals: &[T]) -> ICL {
+    let sz: Vec<T> = sizes.iter().map(|s| tm::c(*s as u64, crate::explore::iw())).collect();
+    IndexedCoproduct::from_semifinite(SemifiniteFunction(K::mk_ix(&sz).into()), sl(vals)).expect("harness functor: sizes sum to value length")
+}
+/// decode a segmented label array into concrete segment sizes and value terms
+pub fn dec_icl(c: &ICL) -> (Vec<usize>, Vec<T>) {
+    (K::rd_ix(&c.sources.table).iter().map(|t| K::usize_of(&K::mk_i(*t))).collect(), K::rd_ls(&c.values.0))
+}
+/// the object map of the harness functor families, on one label
+pub fn fam_obj(fam: u64, l: T) -> Vec<T> {
+    match fam {
+        0 | 4 | 5 => vec![l],
+        1 => vec![l, l],
+        2 => vec![],
+        3 => {
+            // label-dependent length: 0 for label 0, 1 for label 1, 2 otherwise
+            let lab = K::mk_l(l);
+            if lab == K::mk_l(crate::plain::cl(0)) {
+                vec![]
+            } else if lab == K::mk_l(crate::plain::cl(1)) {
+                vec![l]
+            } else {
+                vec![l, l]
+            }
+        }
+        _ => panic!("ENGINE-ERROR: unknown functor family"),
+    }
+}
+fn fam_expand(fam: u64, c: &ICL) -> ICL {
+    let (sizes, vals) = dec_icl(c);
+    let mut p = 0;
+    let mut nsz = vec![];
+    let mut nv = vec![];
+    for s in sizes {
+        let mut k = 0;
+        for v in &vals[p..p + s] {
+            let e = fam_obj(fam, *v);
+            k += e.len();
+            nv.extend(e);
+        }
+        p += s;
+        nsz.push(k);
+    }
+    mk_icl(&nsz, &nv)
+}
+pub struct Fam(pub u64);
+impl Functor<K, L, L, L, L> for Fam {
+    fn map_object(&self, a: &SL) -> ICL {
+        let ls = K::rd_ls(&a.0);
+        let mut sizes = vec![];
+        let mut vals = vec![];
+        for l in ls {
+            let e = fam_obj(self.0, l);
+            sizes.push(e.len());
+            vals.extend(e);
+        }
+        mk_icl(&sizes, &vals)
+    }
+    fn map_operations(&self, ops: Operations<K, L, L>) -> OH {
+        let a = fam_expand(self.0, &ops.a);
+        let b = fam_expand(self.0, &ops.b);
+        match self.0 {
+            // one operation per operation, on the expanded types
+            0 | 1 | 2 | 3 => OpenHypergraph::tensor_operations(Operations::new(ops.x.clone(), a, b).expect("harness functor: operations")),
+            // composite image: x : a -> b followed by x : b -> b
+            4 => {
+                let first = OpenHypergraph::tensor_operations(Operations::new(ops.x.clone(), a, b.clone()).expect("ops"));
+                let second = OpenHypergraph::tensor_operations(Operations::new(ops.x.clone(), b.clone(), b).expect("ops"));
+                first.compose(&second).expect("harness functor: composite image is well typed")
+            }
+            // spider-only image: discard the inputs, create the outputs
+            5 => {
+                let (na, nb) = (a.values.len(), b.values.len());
+                OpenHypergraph::spider(FF::inj0(na.clone(), nb.clone()), FF::inj1(na, nb), a.values.coproduct(&b.values)).expect("harness functor: spider image")
+            }
+            _ => panic!("ENGINE-ERROR: unknown functor family"),
+        }
+    }
+    fn map_arrow(&self, f: &OH) -> OH {
+        define_map_arrow(self, f)
+    }
+}
+fn fam_map(fam: u64, f: &OH) -> OH {
+    if fam == 0 {
+        <StrictIdentity as Functor<K, L, L, L, L>>::map_arrow(&StrictIdentity, f)
+    } else {
+        Fam(fam).map_arrow(f)
+    }
+}
+pub fn c12_map(inp: &PV) -> PV {
+    let f = oh(inp.at(0).oh());
+    let fam = tm::as_const(inp.at(1).t()).expect("family is concrete");
+    let r = fam_map(fam, &f);
+    PV::List(vec![pv_oh(&r), pv_labels(&r.source()), pv_labels(&r.target())])
+}
+/// preservation of the categorical structure: [F(f;g), F(f);F(g), F(f⊗g), F(f)⊗F(g), F(f†), F(f)†, F(id_A), id_{F A}, F(σ), σ_F]
+pub fn c12_preserve(inp: &PV) -> PV {
+    let (f, g) = (oh(inp.at(0).oh()), oh(inp.at(1).oh()));
+    let fam = tm::as_const(inp.at(2).t()).expect("family is concrete");
+    let m = |x: &OH| fam_map(fam, x);
+    let fobj = |a: &SL| -> SL {
+        if fam == 0 {
+            a.clone()
+        } else {
+            Fam(fam).map_object(a).values
+        }
+    };
+    let comp = f.compose(&g);
+    let (a, b) = (f.source(), g.target());
+    PV::List(vec![
+        pv_opt_oh(comp.as_ref().map(|c| m(c))),
+        pv_opt_oh(m(&f).compose(&m(&g))),
+        pv_oh(&m(&f.tensor(&g))),
+        pv_oh(&m(&f).tensor(&m(&g))),
+        pv_oh(&m(&f.dagger())),
+        pv_oh(&m(&f).dagger()),
+        pv_oh(&m(&OH::identity(a.clone()))),
+        pv_oh(&OH::identity(fobj(&a))),
+        pv_oh(&m(&OH::twist(a.clone(), b.clone()))),
+        pv_oh(&OH::twist(fobj(&a), fobj(&b))),
+    ])
+}
+
+// ------------------------------------------------------------------ C14 (optics)
+use open_hypergraphs::strict::functor::optic::Optic;
+/// forward part of a lens-shaped optic: x : a -> b  |->  x : F(a) -> F(b) ● m_x, residual m_x = [x; r]
+pub struct LensFwd {
+    pub fam: u64,
+    pub r: usize,
+}
+/// reverse part: x : a -> b  |->  x : m_x ● R(b) -> R(a)
+pub struct LensRev {
+    pub fam: u64,
+    pub r: usize,
+}
+fn per_op(c: &ICL) -> Vec<Vec<T>> {
+    let (sizes, vals) = dec_icl(c);
+    let mut out = vec![];
+    let mut p = 0;
+    for s in sizes {
+        out.push(vals[p..p + s].to_vec());
+        p += s;
+    }
+    out
+}
+fn of_lists(ls: &[Vec<T>]) -> ICL {
+    let sizes: Vec<usize> = ls.iter().map(|l| l.len()).collect();
+    let vals: Vec<T> = ls.iter().flatten().cloned().collect();
+    mk_icl(&sizes, &vals)
+}
+fn lens_obj(fam: u64, a: &SL) -> ICL {
+    let ls = K::rd_ls(&a.0);
+    of_lists(&ls.iter().map(|l| fam_obj(fam, *l)).collect::<Vec<_>>())
+}
+pub fn lens_residual(ops: &Operations<K, L, L>, r: usize) -> ICL {
+    let xs = K::rd_ls(&ops.x.0);
+    of_lists(&xs.iter().map(|x| vec![*x; r]).collect::<Vec<_>>())
+}
+impl Functor<K, L, L, L, L> for LensFwd {
+    fn map_object(&self, a: &SL) -> ICL {
+        lens_obj(self.fam, a)
+    }
+    fn map_operations(&self, ops: Operations<K, L, L>) -> OH {
+        let xs = K::rd_ls(&ops.x.0);
+        let a: Vec<Vec<T>> = per_op(&ops.a).iter().map(|l| l.iter().flat_map(|v| fam_obj(self.fam, *v)).collect()).collect();
+        let b: Vec<Vec<T>> = per_op(&ops.b).iter().zip(xs.iter()).map(|(l, x)| l.iter().flat_map(|v| fam_obj(self.fam, *v)).chain(std::iter::repeat(*x).take(self.r)).collect()).collect();
+        OpenHypergraph::tensor_operations(Operations::new(ops.x.clone(), of_lists(&a), of_lists(&b)).expect("lens fwd"))
+    }
+    fn map_arrow(&self, f: &OH) -> OH {
+        define_map_arrow(self, f)
+    }
+}
+impl Functor<K, L, L, L, L> for LensRev {
+    fn map_object(&self, a: &SL) -> ICL {
+        lens_obj(self.fam, a)
+    }
+    fn map_operations(&self, ops: Operations<K, L, L>) -> OH {
+        let xs = K::rd_ls(&ops.x.0);
+        let src: Vec<Vec<T>> = per_op(&ops.b).iter().zip(xs.iter()).map(|(l, x)| std::iter::repeat(*x).take(self.r).chain(l.iter().flat_map(|v| fam_obj(self.fam, *v))).collect()).collect();
+        let tgt: Vec<Vec<T>> = per_op(&ops.a).iter().map(|l| l.iter().flat_map(|v| fam_obj(self.fam, *v)).collect()).collect();
+        OpenHypergraph::tensor_operations(Operations::new(ops.x.clone(), of_lists(&src), of_lists(&tgt)).expect("lens rev"))
+    }
+    fn map_arrow(&self, f: &OH) -> OH {
+        define_map_arrow(self, f)
+    }
+}
+pub fn lens_optic(ff: u64, rf: u64, r: usize) -> Optic<LensFwd, LensRev, K, L, L, L, L> {
+    Optic::new(LensFwd { fam: ff, r }, LensRev { fam: rf, r }, Box::new(move |ops: &Operations<K, L, L>| lens_residual(ops, r)))
+}
+fn lens_params(inp: &PV, i: usize) -> (u64, u64, usize) {
+    let k = |j: usize| tm::as_const(inp.at(i + j).t()).expect("optic parameters are concrete");
+    (k(0), k(1), k(2) as usize)
+}
+pub fn c14_map(inp: &PV) -> PV {
+    let f = oh(inp.at(0).oh());
+    let (ff, rf, r) = lens_params(inp, 1);
+    let o = lens_optic(ff, rf, r);
+    let c = o.map_arrow(&f);
+    let d = o.adapt(&c, &f.source(), &f.target());
+    PV::List(vec![pv_oh(&c), pv_labels(&c.source()), pv_labels(&c.target()), pv_oh(&d), pv_labels(&d.source()), pv_labels(&d.target()), pv_bool(d.is_monogamous())])
+}
+pub fn c14_functorial(inp: &PV) -> PV {
+    let (f, g) = (oh(inp.at(0).oh()), oh(inp.at(1).oh()));
+    let (ff, rf, r) = lens_params(inp, 2);
+    let o = lens_optic(ff, rf, r);
+    let comp = f.compose(&g);
+    PV::List(vec![
+        pv_opt_oh(comp.as_ref().map(|c| o.map_arrow(c))),
+        pv_opt_oh(o.map_arrow(&f).compose(&o.map_arrow(&g))),
+        pv_oh(&o.map_arrow(&f.tensor(&g))),
+        pv_oh(&o.map_arrow(&f).tensor(&o.map_arrow(&g))),
+    ])
+}
+
+// ------------------------------------------------------------------ C05 (well-formedness, typing, checked constructors)
+pub fn c05_ff_new(inp: &PV) -> PV {
+    let f = inp.at(0).ff();
+    pv_opt_ff(FiniteFunction::new(K::mk_ix(&f.table), K::mk_i(f.target)))
+}
+pub fn c05_ic_new(inp: &PV) -> PV {
+    let (src, vals) = (ff_raw(inp.at(0).ff()), ff_raw(inp.at(1).ff()));
+    pv_opt(IndexedCoproduct::new(src, vals), pv_icf)
+}
+pub fn c05_ic_from_semifinite(inp: &PV) -> PV {
+    let (src, vals) = (ff_raw(inp.at(0).ff()), ff_raw(inp.at(1).ff()));
+    pv_opt(IndexedCoproduct::from_semifinite(SemifiniteFunction(src.table.clone().into()), vals), pv_icf)
+}
+pub fn c05_operations_new(inp: &PV) -> PV {
+    let x = sl(&inp.at(0).ts());
+    let (a, b) = (icl(inp.at(1).ic()), icl(inp.at(2).ic()));
+    match Operations::new(x, a, b) {
+        None => PV::None,
+        Some(o) => PV::Some(Box::new(PV::List(vec![pv_labels(&o.x), pv_icl(&o.a), pv_icl(&o.b), PV::T(K::rd_i(&o.len()))]))),
+    }
+}
+/// segmented array of finite functions whose value codomain is given (not necessarily the node count)
+fn icf_any(r: &RawIC) -> ICF {
+    icf(r)
+}
+pub fn c05_hypergraph_new(inp: &PV) -> PV {
+    let (s, t) = (icf_any(inp.at(0).ic()), icf_any(inp.at(1).ic()));
+    let (w, x) = (sl(&inp.at(2).ts()), sl(&inp.at(3).ts()));
+    let tag = |e: &InvalidHypergraph<K>| match e {
+        InvalidHypergraph::SourcesCount(a, b) => PV::Tag("SourcesCount".into(), vec![PV::T(K::rd_i(a)), PV::T(K::rd_i(b))]),
+        InvalidHypergraph::TargetsCount(a, b) => PV::Tag("TargetsCount".into(), vec![PV::T(K::rd_i(a)), PV::T(K::rd_i(b))]),
+        InvalidHypergraph::SourcesSet(a, b) => PV::Tag("SourcesSet".into(), vec![PV::T(K::rd_i(a)), PV::T(K::rd_i(b))]),
+        InvalidHypergraph::TargetsSet(a, b) => PV::Tag("TargetsSet".into(), vec![PV::T(K::rd_i(a)), PV::T(K::rd_i(b))]),
+    };
+    let (sf, tf) = (ff_raw(inp.at(4).ff()), ff_raw(inp.at(5).ff()));
+    match Hypergraph::new(s.clone(), t.clone(), w.clone(), x.clone()) {
+        Err(e) => {
+            // the open-hypergraph constructor must reject it too, for the same reason
+            let o = match OpenHypergraph::new(sf, tf, Hypergraph { s, t, w, x }) {
+                Err(InvalidOpenHypergraph::InvalidHypergraph(e2)) => tag(&e2),
+                Err(_) => PV::Tag("OtherErr".into(), vec![]),
+                Ok(_) => PV::Tag("Ok".into(), vec![]),
+            };
+            PV::List(vec![tag(&e), o])
+        }
+        Ok(h) => {
+            let o = match OpenHypergraph::new(sf, tf, h.clone()) {
+                Ok(f) => PV::Tag("Ok".into(), vec![pv_oh(&f)]),
+                Err(InvalidOpenHypergraph::CospanSourceType(a, b)) => PV::Tag("CospanSourceType".into(), vec![PV::T(K::rd_i(&a)), PV::T(K::rd_i(&b))]),
+                Err(InvalidOpenHypergraph::CospanTargetType(a, b)) => PV::Tag("CospanTargetType".into(), vec![PV::T(K::rd_i(&a)), PV::T(K::rd_i(&b))]),
+                Err(InvalidOpenHypergraph::InvalidHypergraph(e2)) => tag(&e2),
+            };
+            PV::List(vec![PV::Tag("Ok".into(), vec![PV::H(rd_h(&h))]), o])
+        }
+    }
+}
+pub fn c05_constructors(inp: &PV) -> PV {
+    // inputs: x label, a labels, b labels, operations batch (x, a, b), w labels
+    let x = K::mk_l(inp.at(0).t());
+    let (a, b) = (sl(&inp.at(1).ts()), sl(&inp.at(2).ts()));
+    let single = OH::singleton(x, a.clone(), b.clone());
+    let ops = Operations::new(sl(&inp.at(3).ts()), icl(inp.at(4).ic()), icl(inp.at(5).ic())).expect("gen: operations batch");
+    let batch = OH::tensor_operations(ops.clone());
+    let hb = H::tensor_operations(ops);
+    let w = sl(&inp.at(6).ts());
+    let id = OH::identity(w.clone());
+    let disc: H = Hypergraph::discrete(w.clone());
+    let empty: H = Hypergraph::empty();
+    let t = |f: &OH| PV::List(vec![pv_oh(f), pv_labels(&f.source()), pv_labels(&f.target())]);
+    PV::List(vec![t(&single), t(&batch), PV::H(rd_h(&hb)), t(&id), PV::H(rd_h(&disc)), PV::H(rd_h(&empty)), pv_bool(disc.is_discrete()), pv_bool(hb.is_discrete())])
+}
+pub fn c05_types(inp: &PV) -> PV {
+    let (f, g) = (oh(inp.at(0).oh()), oh(inp.at(1).oh()));
+    let t = |f: &OH| PV::List(vec![pv_oh(f), pv_labels(&f.source()), pv_labels(&f.target())]);
+    let comp = match f.compose(&g) {
+        None => PV::None,
+        Some(c) => PV::Some(Box::new(t(&c))),
+    };
+    PV::List(vec![comp, t(&f.tensor(&g)), t(&f.dagger()), t(&OH::twist(f.source(), g.target()))])
+}
+pub fn c05_coequalize_vertices(inp: &PV) -> PV {
+    let h = hg(inp.at(0).h());
+    let q = ff_raw(inp.at(1).ff());
+    match h.coequalize_vertices(&q) {
+        None => PV::None,
+        Some(r) => PV::Some(Box::new(PV::H(rd_h(&r)))),
+    }
+}
+
+// ------------------------------------------------------------------ lax diagrams (concrete identifiers, label type L)
+use open_hypergraphs::lax;
+pub type LOH = lax::OpenHypergraph<L, L>;
+fn nid(t: T) -> lax::NodeId {
+    lax::NodeId(RawLax::id(t))
+}
+fn tid(n: &lax::NodeId) -> T {
+    tm::c(n.0 as u64, crate::explore::iw())
+}
+pub fn lax_build(r: &RawLax) -> LOH {
+    LOH {
+        sources: r.s.iter().map(|t| nid(*t)).collect(),
+        targets: r.t.iter().map(|t| nid(*t)).collect(),
+        hypergraph: lax::Hypergraph {
+            nodes: r.nodes.iter().map(|t| K::mk_l(*t)).collect(),
+            edges: r.edges.iter().map(|t| K::mk_l(*t)).collect(),
+            adjacency: r.adj.iter().map(|(a, b)| lax::Hyperedge { sources: a.iter().map(|t| nid(*t)).collect(), targets: b.iter().map(|t| nid(*t)).collect() }).collect(),
+            quotient: (r.quot.iter().map(|(a, _)| nid(*a)).collect(), r.quot.iter().map(|(_, b)| nid(*b)).collect()),
+        },
+    }
+}
+pub fn lax_read(f: &LOH) -> RawLax {
+    RawLax {
+        nodes: f.hypergraph.nodes.iter().map(|l| K::rd_l(l)).collect(),
+        edges: f.hypergraph.edges.iter().map(|l| K::rd_l(l)).collect(),
+        adj: f.hypergraph.adjacency.iter().map(|e| (e.sources.iter().map(tid).collect(), e.targets.iter().map(tid).collect())).collect(),
+        quot: f.hypergraph.quotient.0.iter().zip(f.hypergraph.quotient.1.iter()).map(|(a, b)| (tid(a), tid(b))).collect(),
+        s: f.sources.iter().map(tid).collect(),
+        t: f.targets.iter().map(tid).collect(),
+    }
+}
+pub fn pv_lax(f: &LOH) -> PV {
+    PV::Lax(lax_read(f))
+}
+/// strict diagrams over the real Vec backend with label type L (symbolic labels at `sym`)
+pub type VK = open_hypergraphs::array::vec::VecKind;
+pub type VOH = OpenHypergraph<VK, L, L>;
+pub fn rd_voh(f: &VOH) -> RawOH {
+    let iw = crate::explore::iw();
+    let ix = |a: &open_hypergraphs::array::vec::VecArray<usize>| a.0.iter().map(|v| tm::c(*v as u64, iw)).collect::<Vec<T>>();
+    let ic = |c: &IndexedCoproduct<VK, FiniteFunction<VK>>| RawIC { sizes: ix(&c.sources.table), sizes_target: tm::c(c.sources.target as u64, iw), vals: ix(&c.values.table), vals_target: tm::c(c.values.target as u64, iw) };
+    RawOH {
+        s: RawFF { table: ix(&f.s.table), target: tm::c(f.s.target as u64, iw) },
+        t: RawFF { table: ix(&f.t.table), target: tm::c(f.t.target as u64, iw) },
+        h: RawH { s: ic(&f.h.s), t: ic(&f.h.t), w: f.h.w.0 .0.iter().map(|l| K::rd_l(l)).collect(), x: f.h.x.0 .0.iter().map(|l| K::rd_l(l)).collect() },
+    }
+}
+pub fn pv_voh(f: &VOH) -> PV {
+    PV::OH(rd_voh(f))
+}
+
+// ------------------------------------------------------------------ C09 (quotient)
+pub fn c09_quotient(inp: &PV) -> PV {
+    let mut f = lax_build(inp.at(0).lax());
+    let r1 = f.quotient();
+    let after1 = lax_read(&f);
+    let tag = |r: &Result<FiniteFunction<VK>, FiniteFunction<VK>>| {
+        let (name, q) = match r {
+            Ok(q) => ("Ok", q),
+            Err(q) => ("Err", q),
+        };
+        let iw = crate::explore::iw();
+        PV::Tag(name.into(), vec![PV::of_ts(&q.table.0.iter().map(|v| tm::c(*v as u64, iw)).collect::<Vec<T>>()), PV::T(tm::c(q.target as u64, iw))])
+    };
+    let t1 = tag(&r1);
+    // quotienting again changes nothing
+    let r2 = f.quotient();
+    let after2 = lax_read(&f);
+    // the plain-hypergraph entry point
+    let mut h = lax_build(inp.at(0).lax()).hypergraph;
+    let r3 = h.quotient();
+    let hr = lax_read(&LOH { sources: vec![], targets: vec![], hypergraph: h });
+    PV::List(vec![t1, PV::Lax(after1), tag(&r2), PV::Lax(after2), tag(&r3), PV::Lax(hr)])
+}
